@@ -51,6 +51,8 @@ class Ctx:
         self.model = None
         self.theorems = []
         self.notes = []
+        self.facts = {}          # generated facts (stay empty when the regeneration failed: the search still runs)
+        self.generated_changed = False
 
     def add_obl(self, name, ok, detail=''):
         self.obl.append(Obligation(name, ok, detail))
